@@ -198,6 +198,7 @@ func vfhC18ToleranceMatching() {
 	got := ExactEquals(a, b, IgnoreOrder, ToleranceXY(tol))
 	vfAssert(got == want, "equal iff some permutation matches the members within the tolerance")
 	vfAssert(ExactEquals(b, a, IgnoreOrder, ToleranceXY(tol)) == got, "symmetric")
+	vfAssert(ExactEquals(a, b, ToleranceXY(tol), IgnoreOrder) == got, "the order of the two options does not matter")
 	inOrder := vfAnd(near(0, 0), vfAnd(near(1, 1), near(2, 2)))
 	vfAssert(ExactEquals(a, b, ToleranceXY(tol)) == inOrder, "without IgnoreOrder the members correspond in order")
 	if got {
